@@ -34,13 +34,15 @@ STUBS = [("hash", 1), ("unit", 0), ("tall", 2), ("wide", 3)]
 def plan(tier, seed):
     # quick: <=4 x <=3 leaves plus few-leaved objects on deeper species trees (4-5 leaves: long branches, children on
     # both sides strictly below the child species, transfers between distant clades)
-    pairs = (spaces.shape_pairs(4, 3) + spaces.shape_pairs(3, 4, min_sp=4) + spaces.shape_pairs(2, 6, min_sp=5) if tier == "quick"
+    # ... and 5-leaf chains on two species leaves (up to four events of one kind, e.g. four transfers into one species)
+    pairs = (spaces.shape_pairs(4, 3) + spaces.shape_pairs(3, 4, min_sp=4) + spaces.shape_pairs(2, 6, min_sp=5)
+             + [(sh, (None, None)) for sh in spaces.chain_shapes(5)] if tier == "quick"
              else spaces.shape_pairs(5, 3) + spaces.shape_pairs(4, 4, min_sp=4) + spaces.shape_pairs(3, 6, min_sp=5))
     out = []
     for osh, ssh in pairs:
         k = max(1, spaces.count_assignments(osh, ssh) // 8)
         for i in range(k):
-            out.append({"slice": "P4x3+P3x4+P2x6" if tier == "quick" else "P5x3+P4x4+P3x6", "osh": osh, "ssh": ssh, "part": (i, k)})
+            out.append({"slice": "P4x3+P3x4+P2x6+P5chainx2" if tier == "quick" else "P5x3+P4x4+P3x6", "osh": osh, "ssh": ssh, "part": (i, k)})
     # operation histories: every ordered pair of distinct valid mappings of one input drawn one after the other on the
     # SAME tree objects (what `draw` sees when it is handed several solutions of one solver run)
     for osh, ssh in (spaces.shape_pairs(3, 3) if tier == "quick" else spaces.shape_pairs(4, 3)):
